@@ -792,6 +792,16 @@ theorem execStats_presE (S : SpecCoreRE I) (p : JVal) : Pres I (execStats p) := 
   have LW0 := LW.toLeafWE0
   unfold execStats; pres
 @[aesop safe apply (rule_sets := [Pres])]
+theorem execOptions_presE (S : SpecCoreRE I) (p : JVal) : Pres I (execOptions p) := by
+  have L := S.toLeafRE
+  have LW := L.toLeafWE
+  unfold execOptions; pres
+@[aesop safe apply (rule_sets := [Pres])]
+theorem execGet_presE (S : SpecCoreRE I) (p : JVal) : Pres I (execGet p) := by
+  have L := S.toLeafRE
+  have LW := L.toLeafWE
+  unfold execGet; pres
+@[aesop safe apply (rule_sets := [Pres])]
 theorem execReadOnly_presE (S : SpecCoreRE I) (c : String) (p : JVal) : Pres I (execReadOnly c p) := by
   have L := S.toLeafRE
   have LW := L.toLeafWE
